@@ -28,16 +28,24 @@ CONSTANTS MaxOps,       \* operations per sequence (including New)
           KeepHist,     \* TRUE: carry and emit the operation history
           Focus         \* "all": every variant;  "data": formation / renewals only in their plain variant,
                         \* no account funding, no empty free: random walks spend their steps on append / free / roots
+                        \* "sizes": the size / capacity bookkeeping alone: plain formation, then only amply funded
+                        \* appends, non-empty frees and (WithRefresh) plain refreshes; emitted at full length only.
+                        \* Exhaustive enumeration of this focus yields every way of appending, freeing and
+                        \* re-appending fewer / as many / more sectors than were freed (capacity > filesize states).
 
 VARIABLES sz, cap, bal, fresh, segcoll, n, done, hist
 vars == <<sz, cap, bal, fresh, segcoll, n, done, hist>>
 
 Classes == {"ample", "exact", "short"}
+Plain == Focus \in {"data", "sizes"}              \* formation / renewal only amply funded, with collateral
+RevClasses == IF Focus = "sizes" THEN {"ample"} ELSE Classes
 Min(a, b) == IF a < b THEN a ELSE b
 Max(a, b) == IF a > b THEN a ELSE b
 
 Op(k, a, b, f, c, g, ok) == [k |-> k, a |-> a, b |-> b, f |-> f, c |-> c, g |-> g, ok |-> ok]
-Log(op) == hist' = IF KeepHist THEN Append(hist, op) ELSE hist
+\* every logged operation also carries the size bookkeeping of the contract it is applied to (sectors
+\* stored / of capacity before the call): the harness compares them with the real contract
+Log(op) == hist' = IF KeepHist THEN Append(hist, op @@ [sz0 |-> sz, cap0 |-> cap]) ELSE hist
 
 Init == /\ sz = 0 /\ cap = 0 /\ bal = "none" /\ fresh = FALSE /\ segcoll = FALSE
         /\ n = 0 /\ done = FALSE /\ hist = <<>>
@@ -56,7 +64,7 @@ PricedClasses == CASE bal = "ample" -> Classes [] bal = "zero" -> {"short"} [] O
 \* ---- formation --------------------------------------------------------------
 \* a = 1: host locks collateral; a = 0: no collateral (the host funds nothing)
 New == /\ n = 0
-       /\ \E f \in (IF Focus = "data" THEN {"ample"} ELSE Classes), a \in (IF Focus = "data" THEN {1} ELSE {0, 1}) :
+       /\ \E f \in (IF Plain THEN {"ample"} ELSE Classes), a \in (IF Plain THEN {1} ELSE {0, 1}) :
             /\ sz' = 0 /\ cap' = 0 /\ bal' = "ample" /\ fresh' = TRUE /\ segcoll' = (a = 1)
             /\ Log(Op("new", a, 0, f, "ample", 0, TRUE))
        /\ n' = 1 /\ UNCHANGED done
@@ -65,7 +73,7 @@ New == /\ n = 0
 \* Append m sectors; g = sectors of new capacity.  The collateral class c is offered once per
 \* segment, on a growing append, while the segment's collateral is untouched and non-zero.
 AppendOp == /\ Live
-            /\ \E m \in AppendNs, f \in Classes, c \in Classes :
+            /\ \E m \in AppendNs, f \in RevClasses, c \in RevClasses :
                  LET g == m - Min(m, cap - sz)
                      ok == f # "short" /\ c # "short" IN
                  /\ sz + m <= MaxSectors
@@ -82,7 +90,7 @@ AppendOp == /\ Live
 
 \* Free k sectors (k = 0 is a legal, free-of-charge request)
 FreeOp == /\ Live
-          /\ \E k \in (IF Focus = "data" THEN 1..sz ELSE 0..sz) : \E f \in (IF k = 0 THEN {"ample"} ELSE PricedClasses) :
+          /\ \E k \in (IF Plain THEN 1..sz ELSE 0..sz) : \E f \in (IF k = 0 THEN {"ample"} ELSE PricedClasses \cap RevClasses) :
                LET ok == f # "short" IN
                /\ sz' = IF ok THEN sz - k ELSE sz
                /\ bal' = IF k = 0 THEN bal ELSE BalAfter(f)
@@ -90,7 +98,7 @@ FreeOp == /\ Live
           /\ n' = n + 1 /\ UNCHANGED <<cap, fresh, segcoll, done>>
 
 \* Sector roots: r = 1 (one root) or r = sz (all roots)
-RootsOp == /\ Live /\ sz >= 1
+RootsOp == /\ Live /\ sz >= 1 /\ Focus # "sizes"
            /\ \E r \in {1, sz}, f \in PricedClasses :
                 /\ bal' = BalAfter(f)
                 /\ Log(Op("roots", r, 0, f, "ample", 0, f # "short"))
@@ -100,7 +108,7 @@ RootsOp == /\ Live /\ sz >= 1
 \* (ample: below the balance; exact: the whole balance; short: balance + 1).
 \* A fund request cannot carry a zero amount, a replenish can (b = 1: zero amount).
 FundOp(kind) ==
-  /\ Live /\ Focus # "data"
+  /\ Live /\ ~Plain
   /\ \E f \in (IF Focus = "data" THEN {"ample"} ELSE Classes), z \in {0, 1} :
        /\ (f = "ample" => bal = "ample")
        /\ (z = 1 => (kind = "replenish" /\ (f = "ample" \/ (f = "exact" /\ bal = "zero"))))
@@ -113,13 +121,15 @@ FundOp(kind) ==
 \* (every later operation acts on the new contract; the old one is resolved)
 Renewal(kind) ==
   /\ Live
-  /\ \E f \in (IF Focus = "data" THEN {"ample"} ELSE Classes), a \in (IF Focus = "data" THEN {1} ELSE {0, 1}) :
+  \* sizes: only the refreshes (they keep the capacity, free space included), and not as the last call
+  /\ Focus = "sizes" => (kind # "renew" /\ n + 1 < MaxOps /\ cap > sz)
+  /\ \E f \in (IF Plain THEN {"ample"} ELSE Classes), a \in (IF Plain THEN {1} ELSE {0, 1}) :
        /\ cap' = IF kind = "renew" THEN sz ELSE cap
        /\ bal' = "ample" /\ fresh' = TRUE /\ segcoll' = (a = 1)
        /\ Log(Op(kind, a, 0, f, "ample", 0, TRUE))
   /\ n' = n + 1 /\ UNCHANGED <<sz, done>>
 
-Stop == /\ n >= 1 /\ ~done /\ done' = TRUE /\ UNCHANGED <<sz, cap, bal, fresh, segcoll, n, hist>>
+Stop == /\ n >= 1 /\ ~done /\ (Focus = "sizes" => n = MaxOps) /\ done' = TRUE /\ UNCHANGED <<sz, cap, bal, fresh, segcoll, n, hist>>
 
 Next == \/ New \/ AppendOp \/ FreeOp \/ RootsOp \/ FundOp("fund") \/ FundOp("replenish")
         \/ Renewal("renew") \/ Renewal("refreshP") \/ Renewal("refreshF") \/ Stop
@@ -142,6 +152,13 @@ SegStart == {"new", "renew", "refreshP", "refreshF"}
 OutcomeMatchesClass == KeepHist => \A i \in DOMAIN hist :
    hist[i].ok = (hist[i].k \in SegStart \/ (hist[i].f # "short" /\ hist[i].c # "short"))
 StartsWithNew == KeepHist => (hist # <<>> => hist[1].k = "new" /\ \A i \in 2..Len(hist) : hist[i].k # "new")
+
+\* size bookkeeping: stored sectors never exceed the capacity (TypeOK), and no call on a contract
+\* lowers its capacity (consensus: a revision must not decrease capacity); only a renewal starts the
+\* new contract at capacity = filesize.  An append into free space leaves the capacity alone.
+Revising == AppendOp \/ FreeOp \/ RootsOp \/ FundOp("fund") \/ FundOp("replenish") \/ Renewal("refreshP") \/ Renewal("refreshF")
+CapacityMonotone == [][Revising => (cap' >= cap /\ sz' <= cap')]_vars
+RenewalResets == [][Renewal("renew") => cap' = sz]_vars
 
 Emit == (KeepHist /\ done) => PrintT("@@SK " \o ToJson(hist))
 View == <<sz, cap, bal, fresh, segcoll, n, done>>
